@@ -45,3 +45,35 @@ func debugGuards(args []string) {
 		}
 	}
 }
+
+func debugExtents(args []string) {
+	arch, name := args[0], args[1]
+	c := &Ctx{Repo: "/repo", Verif: "/verif", Tier: "quick"}
+	r := NewReport("dbg", "quick", "other")
+	u, _ := loadAsmBound(c, r, arch)
+	if u == nil {
+		fmt.Println(r.Fatal)
+		return
+	}
+	rt := u.Routine(name)
+	flow := AnalyzeFlow(rt)
+	dataSize := map[string]int{}
+	for _, d := range u.DataSyms() {
+		dataSize[d.Name] = d.Size
+	}
+	xDebug = true
+	res := AnalyzeExtents(rt, flow, asmContracts(arch)[name], dataSize)
+	n := map[int]int{}
+	for _, a := range res.accesses {
+		n[a.status]++
+		if a.status != 1 {
+			fmt.Printf("  %s %s: status %d %s\n", a.instr.Pos, a.instr.Raw, a.status, a.detail)
+		}
+	}
+	fmt.Println("accesses by status:", n, "max states:", res.maxStates, "problems:", res.problems)
+	for _, o := range res.consumption {
+		fmt.Println("  ", o.Status, o.Key, o.Detail)
+	}
+}
+
+var xDebug bool
